@@ -15,7 +15,7 @@ variable {α : Type} [Field α] [LinearOrder α] [IsStrictOrderedRing α]
 
 /-- the state after the `stats` (and the identity `opt`) phase. -/
 def fit (inp : Input α) (s : St α) : St α :=
-  { s with means := meanTable inp s.labels }
+  { s with means := meanTable inp s.labels, fitted := s.labels }
 
 /-- the state after the `relabel` phase. -/
 def relab (inp : Input α) (orc : Oracles α) (s : St α) : St α :=
@@ -176,7 +176,7 @@ theorem repopulate_valid {β : Type} [LT β] [DecidableLT β] (K m : Nat) (sprea
 theorem run_spec' (inp : Input α) (orc : Oracles α) {limit : Nat} {init : List Nat}
     {r : MainLoop.Outcome (St α)} (h : run inp orc limit init = .ok r) :
     MainLoop.Spec (phases inp orc) (fun s => s.labels) limit 0
-      (⟨init, 0, 0, []⟩ : St α) [] r :=
+      (⟨init, 0, 0, [], []⟩ : St α) [] r :=
   MainLoop.run_spec (phases inp orc) (fun s => s.labels) h
 
 /-- every recorded state is `relab (fit s1)` where `s1` has the round counter of the state the
@@ -185,7 +185,7 @@ theorem history_entry (inp : Input α) (orc : Oracles α) {limit : Nat} {init : 
     {r : MainLoop.Outcome (St α)} (h : run inp orc limit init = .ok r) (j : Nat)
     (hj : j < r.rounds) :
     ∃ sPrev s1 : St α,
-      (if j = 0 then some (⟨init, 0, 0, []⟩ : St α) else r.history[j - 1]?) = some sPrev ∧
+      (if j = 0 then some (⟨init, 0, 0, [], []⟩ : St α) else r.history[j - 1]?) = some sPrev ∧
       s1.round = sPrev.round ∧ r.history[j]? = some (relab inp orc (fit inp s1)) := by
   obtain ⟨sPrev, sj, e1, e2, e3⟩ := (run_spec' inp orc h).chain j (Nat.zero_le _) hj
   obtain ⟨s1, h1, h2⟩ := round_ok_shape inp orc j sPrev sj e3
